@@ -5,9 +5,8 @@ import MakoModel.PyExpr.Ast
 `SourceGenerator.visit(node)` looks up `visit_<class name>`; when the class has no such method the node goes
 through `NodeVisitor.generic_visit`, which visits the child nodes in `_fields` order and writes nothing itself.
 Both paths are modelled for every expression kind, and which one is taken is decided by the *regenerated*
-inventory (`hasVisitor`).  A missing entry of an operator table is the `KeyError` of the real code, a `**k`
-keyword (`keyword.arg is None`) its `TypeError`, `visit(None)` (dict `**` key, bare `yield`) its
-`AttributeError`: all three are `none` here.
+inventory (`hasVisitor`).  A missing entry of an operator table is the `KeyError` of the real code, `visit(None)` (a bare
+`yield`) its `AttributeError`: both are `none` here.
 
 The output is the sequence of strings handed to `SourceGenerator.write`, cut into tokens:
 `leaf` = identifiers, constants, operator symbols and keywords, `opn`/`cls` = brackets, `sep` = blanks, commas,
@@ -52,6 +51,18 @@ def isNameNone : Expr → Bool
 /-- `visit_arg` (or `generic_visit` of an `arg`, which has no expression children here) -/
 def argTok (a : Str) : Toks := if hasVisitor .arg then [.leaf a] else []
 
+/-- `isinstance(node, (IfExp, Lambda))` -/
+def isWeak : Expr → Bool
+  | .ifExp .. | .lambda .. => true
+  | _ => false
+
+/-- `SourceGenerator.visit_operand(node)`: what `visit(node)` wrote, parenthesised when the node is a conditional
+expression or a lambda -/
+def wrapOperand (e : Expr) (t : Toks) : Toks := if isWeak e then [lpar] ++ t ++ [rpar] else t
+
+/-- `l` with `x` inserted before position `k` -/
+def insertAt {α} (k : Nat) (x : α) (l : List α) : List α := l.take k ++ x :: l.drop k
+
 def optArgTok : Option Str → Toks
   | none => []
   | some a => argTok a
@@ -63,11 +74,11 @@ def print : Expr → Option Toks
   | .const _ r => some (if hasVisitor .constant then [.leaf r] else [])
   | .attribute v a => do
       let tv ← print v
-      pure (if hasVisitor .attribute then tv ++ [.sep ['.'], .leaf a] else tv)
+      pure (if hasVisitor .attribute then wrapOperand v tv ++ [.sep ['.'], .leaf a] else tv)
   | .subscript v s => do
       let tv ← print v
       let ts ← print s
-      pure (if hasVisitor .subscript then tv ++ [.opn ['[']] ++ ts ++ [.cls [']']] else tv ++ ts)
+      pure (if hasVisitor .subscript then wrapOperand v tv ++ [.opn ['[']] ++ ts ++ [.cls [']']] else tv ++ ts)
   | .slice lo hi st => do
       let tl ← printOpt lo
       let th ← printOpt hi
@@ -87,7 +98,7 @@ def print : Expr → Option Toks
       let ta ← printList args
       if hasVisitor .call then do
         let tk ← printKeywords kws
-        pure (tf ++ [lpar] ++ joinWith comma (ta ++ tk) ++ [rpar])
+        pure (wrapOperand f tf ++ [lpar] ++ joinWith comma (ta ++ tk) ++ [rpar])
       else do
         let tk ← printKeywordsGeneric kws
         pure (tf ++ ta.flatten ++ tk)
@@ -95,21 +106,21 @@ def print : Expr → Option Toks
       if hasVisitor .unaryOp then do
         let s ← op.sym
         let te ← print e
-        pure ([lpar, .leaf s] ++ (if s = ['n', 'o', 't'] then [sp] else []) ++ te ++ [rpar])
+        pure ([lpar, .leaf s] ++ (if s = ['n', 'o', 't'] then [sp] else []) ++ wrapOperand e te ++ [rpar])
       else print e
   | .binOp l op r =>
       if hasVisitor .binOp then do
         let tl ← print l
         let s ← op.sym
         let tr ← print r
-        pure ([lpar] ++ tl ++ [sp, .leaf s, sp] ++ tr ++ [rpar])
+        pure ([lpar] ++ wrapOperand l tl ++ [sp, .leaf s, sp] ++ wrapOperand r tr ++ [rpar])
       else do
         let tl ← print l
         let tr ← print r
         pure (tl ++ tr)
   | .boolOp op vs =>
       if hasVisitor .boolOp then do
-        let tv ← printList vs
+        let tv ← printOps vs
         if tv.length ≤ 1 then pure ([lpar] ++ tv.flatten ++ [rpar])
         else do
           let s ← op.sym
@@ -121,7 +132,7 @@ def print : Expr → Option Toks
       if hasVisitor .compare then do
         let tl ← print l
         let tc ← printCmp ops cs
-        pure ([lpar] ++ tl ++ tc ++ [rpar])
+        pure ([lpar] ++ wrapOperand l tl ++ tc ++ [rpar])
       else do
         let tl ← print l
         let tc ← printList cs
@@ -131,7 +142,8 @@ def print : Expr → Option Toks
         let tb ← print b
         let tt ← print t
         let to ← print o
-        pure (tb ++ [sp, .leaf ['i', 'f'], sp] ++ tt ++ [sp, .leaf ['e', 'l', 's', 'e'], sp] ++ to)
+        pure (wrapOperand b tb ++ [sp, .leaf ['i', 'f'], sp] ++ wrapOperand t tt
+              ++ [sp, .leaf ['e', 'l', 's', 'e'], sp] ++ to)
       else do
         let tt ← print t
         let tb ← print b
@@ -204,7 +216,7 @@ def print : Expr → Option Toks
       pure (if hasVisitor .formattedValue then [.opn ['{']] ++ tv ++ ts ++ [.cls ['}']] else tv ++ ts)
   | .starred v => do
       let tv ← print v
-      pure (if hasVisitor .starred then [.leaf ['*']] ++ tv else tv)
+      pure (if hasVisitor .starred then [.leaf ['*']] ++ wrapOperand v tv else tv)
   | .namedExpr t v => do
       let tt ← print t
       let tv ← print v
@@ -237,6 +249,14 @@ def printList : List Expr → Option (List Toks)
       let ts ← printList es
       pure (t :: ts)
 
+/-- the children of a list field visited with `visit_operand`, one item each -/
+def printOps : List Expr → Option (List Toks)
+  | [] => some []
+  | e :: es => do
+      let t ← print e
+      let ts ← printOps es
+      pure (wrapOperand e t :: ts)
+
 /-- `generic_visit` over a list field that may contain `None` (skipped: not an `AST` instance) -/
 def printOptList : List (Option Expr) → Option Toks
   | [] => some []
@@ -246,14 +266,16 @@ def printOptList : List (Option Expr) → Option Toks
       let ts ← printOptList es
       pure (t ++ ts)
 
-/-- `visit_Dict`: `zip(node.keys, node.values)`, each `visit(key)`, `": "`, `visit(value)`;
-a `None` key (`**d`) ends in `visit(None)` → `AttributeError` -/
+/-- `visit_Dict`: `zip(node.keys, node.values)`; `visit(key)`, `": "`, `visit(value)`, or for a `None` key (`**d`)
+`"**"`, `visit_operand(value)` -/
 def printDict : List DictItem → Option (List Toks)
   | [] => some []
-  | .mk k v :: r => do
-      let tk ← match k with
-        | none => none
-        | some e => print e
+  | .mk none v :: r => do
+      let tv ← print v
+      let tr ← printDict r
+      pure (([.leaf ['*', '*']] ++ wrapOperand v tv) :: tr)
+  | .mk (some k) v :: r => do
+      let tk ← print k
       let tv ← print v
       let tr ← printDict r
       pure ((tk ++ [.sep [':', ' ']] ++ tv) :: tr)
@@ -283,16 +305,17 @@ def printCmp : List CmpOp → List Expr → Option Toks
       let s ← op.sym
       let tc ← print c
       let tr ← printCmp ops cs
-      pure ([sp, .leaf s, sp] ++ tc ++ tr)
+      pure ([sp, .leaf s, sp] ++ wrapOperand c tc ++ tr)
 
-/-- keywords inside `visit_Call`: `self.write(keyword.arg + "=")`, `visit(keyword.value)` -/
+/-- keywords inside `visit_Call`: `keyword.arg + "="` (or `"**"` when `keyword.arg is None`), `visit(keyword.value)` -/
 def printKeywords : List Keyword → Option (List Toks)
   | [] => some []
   | .mk arg v :: ks => do
-      let a ← arg
       let tv ← print v
       let tr ← printKeywords ks
-      pure (([.leaf a, .sep ['=']] ++ tv) :: tr)
+      pure (((match arg with
+              | none => [.leaf ['*', '*']]
+              | some a => [.leaf a, .sep ['=']]) ++ tv) :: tr)
 
 /-- `generic_visit` of `keyword` nodes (there is no `visit_keyword`): the value only -/
 def printKeywordsGeneric : List Keyword → Option Toks
@@ -308,12 +331,15 @@ def printComps : List Comp → Option Toks
   | .mk target iter ifs _ :: gs => do
       let tt ← print target
       let ti ← print iter
-      let tf ← printList ifs
-      let tr ← printComps gs
-      pure (if hasVisitor .comprehension then
-              [sp, .leaf ['f', 'o', 'r'], sp] ++ tt ++ [sp, .leaf ['i', 'n'], sp] ++ ti
-                ++ (tf.map fun c => [sp, .leaf ['i', 'f'], sp] ++ c).flatten ++ tr
-            else tt ++ ti ++ tf.flatten ++ tr)
+      if hasVisitor .comprehension then do
+        let tf ← printOps ifs
+        let tr ← printComps gs
+        pure ([sp, .leaf ['f', 'o', 'r'], sp] ++ tt ++ [sp, .leaf ['i', 'n'], sp] ++ wrapOperand iter ti
+                ++ (tf.map fun c => [sp, .leaf ['i', 'f'], sp] ++ c).flatten ++ tr)
+      else do
+        let tf ← printList ifs
+        let tr ← printComps gs
+        pure (tt ++ ti ++ tf.flatten ++ tr)
 
 /-- `zip(args, defaults)` of the trailing arguments in `signature` -/
 def printDefaults : List Str → List Expr → Option (List Toks)
@@ -324,14 +350,33 @@ def printDefaults : List Str → List Expr → Option (List Toks)
       let tr ← printDefaults as ds
       pure ((argTok a ++ [.sep ['=']] ++ td) :: tr)
 
-/-- `SourceGenerator.signature(node.args)`: the comma-separated items.  Only `args`, `defaults`, `vararg`
-and `kwarg` are looked at: positional-only and keyword-only parameters are not written. -/
+/-- `zip(node.kwonlyargs, node.kw_defaults)` in `signature` -/
+def printKwDefaults : List Str → List (Option Expr) → Option (List Toks)
+  | _, [] => some []
+  | [], _ :: _ => some []
+  | a :: as, none :: ds => do
+      let tr ← printKwDefaults as ds
+      pure (argTok a :: tr)
+  | a :: as, some d :: ds => do
+      let td ← print d
+      let tr ← printKwDefaults as ds
+      pure ((argTok a ++ [.sep ['=']] ++ td) :: tr)
+
+/-- `SourceGenerator.signature(node.args)`: the comma-separated items - positional-only and ordinary parameters
+(the last ones with their defaults), `/` after the last positional-only one, `*vararg` or a bare `*` before
+keyword-only parameters, these with their defaults, `**kwarg`. -/
 def printSig : Args → Option (List Toks)
-  | .mk _ args vararg _ _ kwarg defaults => do
-      let pad := args.length - defaults.length
-      let td ← printDefaults (args.drop pad) defaults
-      pure ((args.take pad).map argTok ++ td
-            ++ (match vararg with | none => [] | some v => [[.leaf ['*'], .leaf v]])
+  | .mk posonly args vararg kwonly kwDefaults kwarg defaults => do
+      let positional := posonly ++ args
+      let pad := positional.length - defaults.length
+      let td ← printDefaults (positional.drop pad) defaults
+      let tk ← printKwDefaults kwonly kwDefaults
+      let items := (positional.take pad).map argTok ++ td
+      pure ((if posonly.isEmpty then items else insertAt posonly.length [.leaf ['/']] items)
+            ++ (match vararg with
+                | none => if kwonly.isEmpty then [] else [[.leaf ['*']]]
+                | some v => [[.leaf ['*'], .leaf v]])
+            ++ tk
             ++ (match kwarg with | none => [] | some k => [[.leaf ['*', '*'], .leaf k]]))
 
 /-- `generic_visit` of an `arguments` node (when `Lambda` has no visitor): every `arg` in field order,
